@@ -85,6 +85,18 @@ class FirstApplicationRaised(Exception):
     pass
 
 
+class InputRejected(Exception):
+    """the Loki frontend (or fgen of the untouched IR) fails on the input: nothing to judge (C01 matter)"""
+
+
+def frontend_accepts(prog):
+    try:
+        parse_enriched(fir.emit_fortran(prog, wrap_program=False))
+        return True
+    except Exception:
+        return False
+
+
 def parse_enriched(src):
     sf = fir.parse_fortran(src)
     routines = list(sf.all_subroutines)
@@ -347,6 +359,10 @@ def dead_decorate(prog, rng, p=0.45):
                     s = [s[0], fir.I(rng.choice([int(str(v)) for c in s[2] for v in c[0]] + [7])), s[2], s[3]]
                 elif k in ('assign', 'print', 'callsub') and r < 0.12:
                     s = [A('if'), _const_cond(rng, params), [s], [] if rng.random() < 0.5 else [s]]
+                elif k in ('assign', 'print', 'callsub') and r < 0.2:
+                    # constant IF nested in a constant IF: the pruned branch must itself have been pruned
+                    inner = [A('if'), rng.choice((fir.Bl(True), fir.Bl(False))), [s], [s]]
+                    s = [A('if'), rng.choice((fir.Bl(True), fir.Bl(False))), [inner], [inner]]
                 res.append(s)
             return res
         body = fir.map_program([A('program'), u[1], u], fs=fs)[2][4]
@@ -589,8 +605,11 @@ def _apply_for(kind, norm, extra):
 def run_once_twice(kind, norm, src, extra):
     """-> (t0, t1, t2, problem, sf after the FIRST application is not kept)"""
     from loki import fgen
-    sf = parse_enriched(src)
-    t0 = fgen(sf.ir)
+    try:
+        sf = parse_enriched(src)
+        t0 = fgen(sf.ir)
+    except Exception as e:
+        raise InputRejected(f'{type(e).__name__}: {str(e)[:80]}') from e
     f = _apply_for(kind, norm, extra)
     try:
         f(sf)
@@ -710,10 +729,14 @@ class C40(Prop):
             for norm in NORMALISERS:
                 prog = base
                 if norm == 'lower':
-                    yield Case([A('fir'), A(norm), recase_prog(prog, rng)], stream='fir-lower')
+                    q = recase_prog(prog, rng)
+                    if frontend_accepts(q):      # streams with a model need an input the frontend parses
+                        yield Case([A('fir'), A(norm), q], stream='fir-lower')
                     continue
                 if norm == 'deadns':
-                    yield Case([A('fir'), A(norm), literal_selects(dead_decorate(prog, rng), rng)], stream='fir-deadns')
+                    q = literal_selects(dead_decorate(prog, rng), rng)
+                    if frontend_accepts(q):
+                        yield Case([A('fir'), A(norm), q], stream='fir-deadns')
                     continue
                 if norm == 'dead':
                     yield Case([A('fir'), A(norm), dead_decorate(prog, rng)], stream='fir-dead')
@@ -791,6 +814,9 @@ class C40(Prop):
         tag = norm if kind != 'decl' else f'single(variables={extra[0]}, group_by_shape={extra[1]})'
         try:
             t0, t1, t2, prob = run_once_twice(kind, norm, src, extra)
+        except InputRejected as e:
+            stats[f'input-rejected-by-frontend:{str(e)[:50]}'] += 1
+            return []
         except FirstApplicationRaised as e:
             stats[f'first-application-raised:{norm}:{str(e)[:60]}'] += 1
             return []
